@@ -65,6 +65,11 @@ Proof.
     destruct o; try (apply (loop_inv ev var ifs _ Hev IH); exact H1). exact H1.
 Qed.
 
+Lemma consume_inv ev elt gens stop_on s : preserves ev -> Inv s -> Inv (snd (consume truthy elems ev elt gens stop_on s)).
+Proof.
+  intros Hev Hs. unfold consume. destruct (existsb _ gens); [exact Hs|]. apply level_inv; assumption.
+Qed.
+
 Lemma helper_events_ok c vs : Forall (fun e => ev_ok e = true) (helper_events F helper_fields c vs).
 Proof.
   unfold helper_events. destruct c; try constructor. destruct vs as [|a [|b t]]; try constructor.
@@ -84,9 +89,8 @@ Proof.
   2: { destruct a; exact H0. }
   destruct a; try exact H0.
   destruct (String.eqb name "any" || String.eqb name "all"); [|exact H0].
-  destruct (existsb _ gens); [exact H0|].
-  match goal with |- context [level ?t ?e ?v ?el ?so ?g ?s] =>
-    pose proof (level_inv ev el so Hev g s H0) as HL; destruct (level t e v el so g s) as [[[e'|] b] s1] end;
+  match goal with |- context [consume ?t ?e ?v ?el ?g ?so ?s] =>
+    pose proof (consume_inv ev el g so s Hev H0) as HL; destruct (consume t e v el g so s) as [[[e'|] b] s1] end;
     cbn [snd] in *; exact HL.
 Qed.
 
@@ -115,9 +119,20 @@ Proof.
     apply Inv_emit; [exact H1|reflexivity].
   - pose proof (IH s n Hs) as H1. destruct (ev s n) as [[a|e] s1]; cbn [snd] in *; [|exact H1].
     generalize (OConst true) as last. revert a s1 H1.
-    induction comps as [|cn comps IHc]; intros a s1 H1 last; [exact H1|].
+    induction comps as [|[is_in cn] comps IHc]; intros a s1 H1 last; [exact H1|].
     pose proof (IH s1 cn H1) as H2. destruct (ev s1 cn) as [[b|e] s2]; cbn [snd] in *; [|exact H2].
-    assert (H3 : Inv (emit s2 (EvOp [a; b]))) by (apply Inv_emit; [exact H2|reflexivity]).
+    assert (HC : Inv (snd (match is_in, cn, a with
+                           | true, NGen elt gens, OMissing => (None, false, s2)
+                           | true, NGen elt gens, _ => consume truthy elems ev elt gens (fun v => truthy (OOp [v; a])) s2
+                           | _, _, _ => (None, false, s2)
+                           end))).
+    { destruct is_in; [|exact H2]. destruct cn; try exact H2. destruct a; try exact H2; apply consume_inv; assumption. }
+    destruct (match is_in, cn, a with
+              | true, NGen elt gens, OMissing => (None, false, s2)
+              | true, NGen elt gens, _ => consume truthy elems ev elt gens (fun v => truthy (OOp [v; a])) s2
+              | _, _, _ => (None, false, s2)
+              end) as [[[e'|] b'] s2']; cbn [snd] in HC; [exact HC|].
+    assert (H3 : Inv (emit s2' (EvOp [a; b]))) by (apply Inv_emit; [exact HC|reflexivity]).
     destruct (truthy (OOp [a; b])); [apply IHc; exact H3|exact H3].
   - (* NCall *)
     destruct n; try exact Hs; rewrite G.
